@@ -272,6 +272,9 @@ func (e *c10Env) step(op c10Op) (ds []disc, accepted bool) {
 	if op.K == "copy-from" {
 		addrKey = "copied"
 	}
+	if op.K == "mdel" {
+		addrKey = c10XMLKey(op.Key) // what the request document can carry
+	}
 	isFs := e.st.Kind.IsFs()
 	allowed := func(b, k string) bool {
 		if b != op.B || !mutating {
@@ -287,7 +290,9 @@ func (e *c10Env) step(op c10Op) (ds []disc, accepted bool) {
 	}
 	for id, obs := range before.Keys {
 		parts := strings.SplitN(id, "\x00", 2)
-		if after.Keys[id] != obs && !allowed(parts[0], parts[1]) {
+		// the read goes through the router, which trims slashes around the path (C16): the
+		// observation of "d/" is the observation of "d"
+		if after.Keys[id] != obs && !allowed(parts[0], parts[1]) && !allowed(parts[0], strings.Trim(parts[1], "/")) {
 			fail("other-key-changed", "%s/%s read %q before and %q after", parts[0], parts[1], obs, after.Keys[id])
 		}
 	}
@@ -576,4 +581,18 @@ func c10Run(t *testing.T, c *evid.Collector) {
 			rt.Fatalf("C10 violated: %v", ds)
 		}
 	})
+}
+
+// c10XMLKey is the key a multi-delete document built with xmlEsc carries: XML 1.0 cannot
+// express most control characters, xmlEsc sends '?' in their place.
+func c10XMLKey(k string) string {
+	var b strings.Builder
+	for _, r := range k {
+		if (r < 0x20 && r != '\t' && r != '\n' && r != '\r') || r == 0xFFFE || r == 0xFFFF {
+			b.WriteByte('?')
+		} else {
+			b.WriteRune(r)
+		}
+	}
+	return b.String()
 }
